@@ -145,6 +145,15 @@ func refKeys(d bsonkit.Doc, field string) []interface{} {
 	return []interface{}{nil}
 }
 
+func hasField(d bsonkit.Doc, field string) bool {
+	for _, e := range *d {
+		if e.Key == field {
+			return true
+		}
+	}
+	return false
+}
+
 func refUnder(d bsonkit.Doc, ix stIndex) bool {
 	if !ix.partial {
 		return true
@@ -173,7 +182,8 @@ func keysCollide(k1, k2 []interface{}) bool {
 func hasDuplicate(docs bsonkit.List, idx []stIndex) bool {
 	for i := 0; i < len(docs); i++ {
 		for j := i + 1; j < len(docs); j++ {
-			if keysCollide(refKeys(docs[i], "_id"), refKeys(docs[j], "_id")) {
+			// (a document without _id gets a fresh generated one: it never collides on _id)
+			if hasField(docs[i], "_id") && hasField(docs[j], "_id") && keysCollide(refKeys(docs[i], "_id"), refKeys(docs[j], "_id")) {
 				return true
 			}
 			for _, ix := range idx {
@@ -196,6 +206,9 @@ type opOutcome struct {
 	multi    bool         // multi-item call: items fail individually, the call itself succeeds
 	bulk     []Result
 	inserted bsonkit.Doc
+	items    bsonkit.List // the documents of an insert-many
+	ordered  bool
+	q, u     bsonkit.Doc // filter and update of an update call
 }
 
 // runOp2 performs a second document write with its own symbolic arguments.
@@ -277,9 +290,11 @@ func runOpKind(txn *Transaction, kind int) opOutcome {
 		out.res, out.err = txn.Replace(hMain, &q, nil, &d, false)
 	case opUpdateOne:
 		q, u := stFilter("q"), stUpdate("u")
+		out.q, out.u = &q, &u
 		out.res, out.err = txn.Update(hMain, &q, nil, &u, 0, 1, false, nil)
 	case opUpdateMany:
 		q, u := stFilter("q"), stUpdate("u")
+		out.q, out.u = &q, &u
 		out.res, out.err = txn.Update(hMain, &q, nil, &u, 0, 0, false, nil)
 	case opDelete:
 		q := stFilter("q")
@@ -309,7 +324,9 @@ func runOpKind(txn *Transaction, kind int) opOutcome {
 		// two documents, ordered or not; each may fail on its own (duplicate _id or unique key)
 		d1 := stDoc("m1", vf.Bool("m1.hasID"), vf.Int32("m1.id"))
 		d2 := stDoc("m2", vf.Bool("m2.hasID"), vf.Int32("m2.id"))
-		out.res, out.err = txn.Insert(hMain, bsonkit.List{&d1, &d2}, vf.Bool("ordered"))
+		out.ordered = vf.Bool("ordered")
+		out.items = bsonkit.List{&d1, &d2}
+		out.res, out.err = txn.Insert(hMain, bsonkit.List{&d1, &d2}, out.ordered)
 		out.multi = true
 	case opBulk:
 		// a write that succeeds or fails, followed by one that succeeds or fails, in one bulk
